@@ -35,29 +35,52 @@ theorem contained (n : Nat) (chunks : List (List Mpire.Proto.Tid)) (hnd : chunks
    fun t ht => (Mpire.Proofs.delivered_were_executed n chunks s h t ht).2,
    fun hf hq => Mpire.Proofs.complete_delivers_all n chunks s h hf hq⟩
 
-/-! ### Known finding, formalised (see DESIGN.md §7 and corpus/C07/apply_dequeue_window.json)
+/-! ### Known findings, formalised (see DESIGN.md §7 and corpus/C07/)
 
-The apply hand-over is two queue entries.  The model below exhibits — and the implementation replays — the two ways in
-which a worker killed between taking the pill and announcing the job makes the property fail; outside that window the
-property holds (`apply_death_isolated_partial`). -/
+The apply hand-over is two queue entries, each acknowledged only after it was processed.  The model exhibits — and the
+implementation replays, from corpus/C07/ on every run — the crash points at which a killed worker makes the property
+fail; at the other points it holds (`apply_death_isolated_partial`). -/
 
-/-- witness 1: killed after taking the task, before announcing it — the task is lost for good. -/
+/-- witness 1 (dequeue window): killed after taking the task, before announcing it — the task is lost for good. -/
 theorem known_finding_task_lost :
-    Mpire.Handover.run {} [.takePill, .takeTask, .kill, .deathHandled] = some { w := .lost, alive := true } := by
+    (Mpire.Handover.run {} [.takePill, .ackPill, .takeTask, .kill, .deathHandled]).map (·.w) = some .lost := by
   decide
 
-/-- witness 2: killed after taking the pill — the replacement runs the bare task entry as a map chunk. -/
+/-- witness 2 (dequeue window): killed after taking the pill — the replacement runs the bare task entry as a map chunk. -/
 theorem known_finding_ran_as_chunk :
-    Mpire.Handover.run {} [.takePill, .kill, .deathHandled, .replacementTakes] = some { w := .ranAsChunk, alive := true } := by
+    (Mpire.Handover.run {} [.takePill, .kill, .deathHandled, .replacementTakes]).map (·.w) = some .ranAsChunk := by
   decide
 
-/-- Outside the window — the worker is killed before it touched the hand-over, or after it announced the job — the job
-can still complete or has been failed with the death error: only the victim's own task is affected. -/
-theorem apply_death_isolated_partial (s s1 s2 : Mpire.Handover.St) (hw : s.w = .queuedBoth ∨ s.w = .announced) (ha : s.alive = true)
+/-- witness 3: killed inside worker_init — the death is attributed to the INIT job and the whole pool is flagged as failed. -/
+theorem known_finding_death_in_worker_init :
+    (Mpire.Handover.run { hasInit := true } [.takePill, .ackPill, .takeTask, .startInit, .kill, .deathHandled]).map
+      (fun s => (s.w, s.poolFailed)) = some (.done false, true) := by
+  decide
+
+/-- witness 4: killed after sending the result, before acknowledging the task — the job completes, but the queue can
+never be joined again. -/
+theorem known_finding_unacknowledged_after_result :
+    (Mpire.Handover.run {} [.takePill, .ackPill, .takeTask, .announce, .sendResult, .kill, .deathHandled]).map
+      (fun s => (s.w, Mpire.Handover.joinable s)) = some (.done true, false) := by
+  decide
+
+/-- At the other crash points — the worker is killed before it touched the hand-over, or while the job it announced is the
+task (it is running the user's function) — the death stays isolated: the job can still complete or has been failed with
+the death error, the queue can still be joined and the pool is not flagged. -/
+theorem apply_death_isolated_partial (s s1 s2 : Mpire.Handover.St)
+    (hw : (s.w = .queuedBoth ∧ s.unacked = 0) ∨ (s.w = .announced ∧ s.unacked = 1)) (ha : s.alive = true) (hp : s.poolFailed = false)
     (h1 : Mpire.Handover.step s .kill = some s1) (h2 : Mpire.Handover.step s1 .deathHandled = some s2) :
-    Mpire.Handover.canComplete s2 = true ∧ (s.w = .announced → s2.w = .done false) ∧ (s.w = .queuedBoth → s2.w = .queuedBoth) := by
-  rcases hw with hw | hw <;> simp_all [Mpire.Handover.step, Mpire.Handover.canComplete] <;>
-    (obtain ⟨_, rfl⟩ := h1; simp_all [Mpire.Handover.step, Mpire.Handover.canComplete]; try (subst h2; simp))
+    Mpire.Handover.isolated s2 = true ∧ (s.w = .announced → s2.w = .done false) ∧ (s.w = .queuedBoth → s2.w = .queuedBoth) := by
+  obtain ⟨w, al, un, pf, hi⟩ := s
+  simp only at hw ha hp
+  subst ha hp
+  rcases hw with ⟨hw, hu⟩ | ⟨hw, hu⟩ <;> subst hw hu <;>
+    simp [Mpire.Handover.step] at h1 <;> subst h1 <;> simp [Mpire.Handover.step] at h2 <;> subst h2 <;>
+    simp [Mpire.Handover.isolated, Mpire.Handover.canComplete, Mpire.Handover.joinable]
+
+/-- the hypotheses of `apply_death_isolated_partial` are met by a reachable state: a worker that runs the task -/
+example : (Mpire.Handover.run {} [.takePill, .ackPill, .takeTask, .announce]).map (fun s => (s.w, s.unacked, s.alive, s.poolFailed)) =
+    some (.announced, 1, true, false) := by decide
 
 example : (drun {} [.signalAlive, .read, .read, .signalDead, .processExit, .read, .read, .read]).map (·.scan) =
     some (.verdict false) := by decide +kernel
